@@ -83,6 +83,11 @@ CHECKS = {
          "n=3,4 (thorough ..5), every t, at every participant: all histories up to depth n+2 over {own PartialSig, valid partial of each other signer, value+1 re-signed, signature bit-flipped, own partial echoed back, partial of another session / another message / with replaced session id / with index n, n+1, 2^32-1 and the receiver's own index}. After every transition: accepted <=> first valid partial of this session; EnoughPartialSig <=> |accepted| >= t; Signature() fails below t and otherwise equals R || (k + H(R,A,m)x) computed independently, verifying under dss.Verify, eddsa.Verify and crypto/ed25519.Verify, identical across states, orders and participants.",
          "Trusted: distributed keys are built from seeded polynomials through the DistKeyShare interface (DKG-produced keys are covered by C11); merged states assume the accepted set determines the future.",
          "DESIGN.md §4 C12"),
+ "C14": ("model_checking",
+         "exhaustive enumeration of predicate trees of a bounded grammar x variable-sharing patterns x proven branch x truth patterns x falsifications and transcript mutations on the real prover/verifier; lock-step clique harness for the deniable protocol",
+         "1,900+ predicate trees (Rep with 1-2 terms, And of up to 2, Or of up to 3 branches of Rep/And; every sharing pattern of 3 scalar names and of 3 base points up to renaming) on Ed25519 (all), P-256 and bn256.G1 (subsets): every Or-branch proven with the others true/false/alternating: HashProve+HashVerify accept, also for a re-run Prover value; each secret of the proven branch falsified -> no accepted proof; truncation around every element boundary, bit flips across the transcript, another protocol name, each public point replaced, other sharing patterns whose proven branch is not satisfiable by the honest values -> rejected. Deniable prover on cliques of 1-3 participants (everybody verifies everybody, also itself) in lock step: all honest proofs accepted everywhere; a participant with a falsified secret is reported by every verifier.",
+         "Trusted: seeded secrets/bases; soundness only against the enumerated alterations, not against all prover strategies.",
+         "DESIGN.md §4 C14"),
 }
 
 NOT_YET = "check not built yet in this round (planned: see DESIGN.md §4)"
